@@ -300,7 +300,7 @@ pub fn is_zero(x: &BigUint) -> bool {
 // ---------------------------------------------------------------- scalars
 
 /// Structured scalar classes (DESIGN.md section 4, `Scalar(n)`), as integers in [0, n).
-pub const SCALAR_CLASSES: &[&str] = &["uniform", "edge", "pow2", "fraction_round", "fraction_ratio", "digits5", "small"];
+pub const SCALAR_CLASSES: &[&str] = &["uniform", "edge", "pow2", "fraction_round", "fraction_ratio", "digits5", "small", "fraction_lowzero"];
 
 pub fn scalar_strategy(n: &BigUint, class: usize) -> BoxedStrategy<BigUint> {
     let n = n.clone();
@@ -349,6 +349,22 @@ pub fn scalar_strategy(n: &BigUint, class: usize) -> BoxedStrategy<BigUint> {
                 if negate { pf::neg(&x, &n) } else { x }
             })
             .boxed(),
+        "fraction_lowzero" => {
+            // k = +-(m * 2^z) / b with a short odd denominator: the reduced fraction (c0, c1) that the internal splits
+            // recover has whole low bytes / words of c0 (or c1) equal to zero, which exercises their sign and carry handling
+            let half = n.bits() / 2;
+            (prop::collection::vec(any::<u8>(), 40), prop::collection::vec(any::<u8>(), 40), prop::sample::select(vec![8u64, 16, 24, 32, 64]), 8u64..100, 1u64..100, any::<bool>(), any::<bool>())
+                .prop_map(move |(mraw, braw, z, mb, bb, negate, swap)| {
+                    let mb = mb.min(half.saturating_sub(z + 10)).max(1);
+                    let bb = bb.min(half.saturating_sub(10)).max(1);
+                    let m = sized(&mraw, mb) << z;
+                    let b = sized(&braw, bb) | BigUint::one();
+                    let (num, den) = if swap { (b.clone(), m.clone() | BigUint::one()) } else { (m, b) };
+                    let x = (num % &n) * pf::inv_euclid(&(den % &n), &n).unwrap_or_else(BigUint::one) % &n;
+                    if negate { pf::neg(&x, &n) } else { x }
+                })
+                .boxed()
+        }
         "digits5" => prop::collection::vec(prop_oneof![4 => prop::sample::select(vec![0u8, 15, 16, 17, 31, 1, 30]), 1 => 0u8..32], 52)
             .prop_map(move |d| {
                 let mut x = BigUint::zero();
